@@ -1,5 +1,6 @@
 import GlyModel.Api.Convert
 import GlyModel.Front.Spec
+import GlyProofs.Front.TreeShape
 /-
   C10 — Nothing is dropped silently: the meaning of `full`. (Property theorems only.)
 -/
@@ -27,5 +28,56 @@ theorem C10_addNodeEdge_full (w : WalkCfg) (parent : Nat) (d : Recipe) (c : ConS
     (addNodeEdge w parent d c st).2.full =
       (st.full && w.nodeFull d && !(normLabel w d c).contains '?') := by
   simp [addNodeEdge, addNode, addEdge, hp]
+
+/-- every residue of the forest is realised and no linkage label contains `?` -/
+def allFull (w : WalkCfg) : GF → Bool
+  | .nil => true
+  | .cons l n kids rest => w.nodeFull n && !(normLabel w n l).contains '?' && allFull w kids && allFull w rest
+
+/-- **`tree_full` over a whole forest** (any depth, any branching): after the walker has numbered a forest onto a node, `full` is
+    still true iff it was true before and *every* residue of the forest is realised (`nodeFull`: known monosaccharide, every
+    modification attached) and *no* linkage label contains `?`. Nothing is dropped silently: one unrealised residue or one
+    undetermined linkage anywhere in the tree makes `full` false. -/
+theorem C10_forest_full (w : WalkCfg) (F : GF) : ∀ (p : Nat) (st : WState), p < st.nodes.length →
+    (flattenOnto w F p st).full = (st.full && allFull w F) ∧ st.nodes.length ≤ (flattenOnto w F p st).nodes.length := by
+  induction F with
+  | nil => intro p st _; simp [flattenOnto, allFull]
+  | cons l n kids rest ihk ihr =>
+    intro p st hp
+    have hne : p ≠ st.nodes.length := by omega
+    have h1 := C10_addNodeEdge_full w p n l st hne
+    obtain ⟨hid, hn, _⟩ := addNodeEdge_spec w p n l st hp
+    simp only [flattenOnto]
+    generalize hst1 : addNodeEdge w p n l st = r1 at h1 hid hn
+    obtain ⟨id, st1⟩ := r1
+    simp only at h1 hid hn
+    subst hid
+    have hlen1 : st1.nodes.length = st.nodes.length + 1 := by rw [hn]; simp
+    obtain ⟨hk, hkl⟩ := ihk st.nodes.length st1 (by omega)
+    obtain ⟨hr, hrl⟩ := ihr p (flattenOnto w kids st.nodes.length st1) (by omega)
+    refine ⟨?_, ?_⟩
+    · show (flattenOnto w rest p (flattenOnto w kids st.nodes.length st1)).full = _
+      rw [hr, hk, h1]
+      simp only [allFull, Bool.and_assoc]
+    · show st.nodes.length ≤ (flattenOnto w rest p (flattenOnto w kids st.nodes.length st1)).nodes.length
+      omega
+
+/-- … hence for a whole glycan without floating fragments: `tree_full` (before the connectivity test) is the conjunction over the
+    root residue and everything that hangs on it. -/
+theorem C10_tree_full (w : WalkCfg) (s : Start) (hf : s.floats = []) :
+    (walkStart w s).full =
+      (w.nodeFull (if (s.begin.config.getD []).isEmpty then s.begin.d else s.begin.d ++ [(s.begin.config.getD [], w.tTYPE)]) &&
+       (match s.begin.branch with | none => true | some br => allFull w (den br .nil))) := by
+  rw [walkStart_eq_denStart]
+  simp only [denStart, hf, List.foldl_nil, addNode, WState.init, List.length_nil, List.nil_append]
+  cases hb : s.begin.branch with
+  | none => simp
+  | some br =>
+    simp only
+    have := (C10_forest_full w (den br .nil) 0
+      ⟨[if (s.begin.config.getD []).isEmpty then s.begin.d else s.begin.d ++ [(s.begin.config.getD [], w.tTYPE)]], [],
+        true && w.nodeFull (if (s.begin.config.getD []).isEmpty then s.begin.d else s.begin.d ++ [(s.begin.config.getD [], w.tTYPE)])⟩
+      (by simp)).1
+    rw [this]; simp
 
 end Gly.Props.C10
